@@ -2,6 +2,9 @@ import Driver.Tree
 import Driver.FsDrv
 import Driver.TableDrv
 import Driver.ManifestDrv
+import Driver.BlockBackDrv
+import Driver.IndexDrv
+import Driver.ArchiveDrv
 /-
   Driver.Main — `lsmdrv`: one request per line on stdin, one canonical answer per line on stdout.
   The answers are computed by the very definitions the theorems in `LsmModel/Props` are about.
@@ -126,7 +129,7 @@ def fnVt (a : List (String × String)) : String :=
   | none => bad "vt"
 
 def treeCmds : List String := ["rawwrite", "bumpctr", "write", "rotate", "flush", "flushcommit", "merge", "move", "drop", "clear", "ingest", "reopen"]
-def treeQueries : List String := ["get", "scan", "admissible", "choose", "hwm", "digest", "dump"]
+def treeQueries : List String := ["get", "scan", "weaksafe", "admissible", "choose", "hwm", "digest", "dump"]
 
 structure DS where
   t : TS
@@ -165,7 +168,7 @@ where handlePure (cmd : String) (a : List (String × String)) : String :=
     | "prefix" => fnPrefix a
     | "memtable" => fnMemtable a
     | "vt" => fnVt a
-    | _ => ((handleTableCmd cmd a).orElse (fun _ => handleManifestCmd cmd a)).getD (bad ("unknown-command " ++ cmd))
+    | _ => ((((handleTableCmd cmd a).orElse (fun _ => handleManifestCmd cmd a)).orElse (fun _ => handleBlockBackCmd cmd a)).orElse (fun _ => (handleIndexCmd cmd a).orElse (fun _ => handleArchiveCmd cmd a))).getD (bad ("unknown-command " ++ cmd))
 
 def handle (s : DS) (line : String) : DS × String :=
   match line.trimAscii.toString.splitOn " " with
